@@ -115,28 +115,39 @@ def decodeInto (c : Codec) (r : Reader) (input : Bytes) (dstLen : Nat) : Reader 
     | some b => ({ r with output := b }, .buffered)
     | none => (r, .err)
 
+/-- first part of `readChunk`: on the first call of a stream (`nbytes == 0`) read up to 16 header bytes
+(`io.ReadFull`; nothing at all → EOF); returns the reader and `prefix` -/
+def headerPhase (r : Reader) : Option (Reader × Nat) :=
+  let h := r.rest.take 16
+  if r.nbytes = 0 then
+    if h = [] then none
+    else some ({ r with header := h ++ r.header.drop h.length, rest := r.rest.drop 16, nbytes := h.length }, h.length)
+  else some (r, 0)
+
+/-- `isXerialHeader` branch: 4-byte length, frame, decode -/
+def framedBody (c : Codec) (r : Reader) (dstLen : Nat) : Reader × Chunk :=
+  let l := r.rest.take 4
+  if l = [] then (r, .eof)
+  else if l.length < 4 then ({ r with rest := [], nbytes := r.nbytes + l.length }, .err)
+  else
+    let frame := deN l
+    let input := (r.rest.drop 4).take frame
+    if input.length < frame then ({ r with rest := [], nbytes := r.nbytes + 4 + input.length }, .err)
+    else decodeInto c { r with rest := r.rest.drop (4 + frame), nbytes := r.nbytes + 4 + frame } input dstLen
+
+/-- unframed branch: the header bytes already read plus everything up to EOF is one raw block -/
+def unframedBody (c : Codec) (r : Reader) (pre : Nat) (dstLen : Nat) : Reader × Chunk :=
+  let input := r.header.take pre ++ r.rest
+  if input = [] then (r, .eof)
+  else decodeInto c { r with rest := [], nbytes := r.nbytes + r.rest.length } input dstLen
+
 /-- `readChunk(dst)` with `dstLen = len(dst)` -/
 def readChunk (c : Codec) (r : Reader) (dstLen : Nat) : Reader × Chunk :=
   let r := { r with output := [], offset := 0 }
-  let h := r.rest.take 16
-  if r.nbytes = 0 ∧ h = [] then (r, .eof)
-  else
-    let (r, pre) := if r.nbytes = 0
-      then ({ r with header := h ++ r.header.drop h.length, rest := r.rest.drop 16, nbytes := h.length }, h.length)
-      else (r, 0)
-    if r.header.take 8 = Spec.Xerial.magic then
-      let l := r.rest.take 4
-      if l = [] then (r, .eof)
-      else if l.length < 4 then ({ r with rest := [], nbytes := r.nbytes + l.length }, .err)
-      else
-        let frame := deN l
-        let input := (r.rest.drop 4).take frame
-        if input.length < frame then ({ r with rest := [], nbytes := r.nbytes + 4 + input.length }, .err)
-        else decodeInto c { r with rest := r.rest.drop (4 + frame), nbytes := r.nbytes + 4 + frame } input dstLen
-    else
-      let input := r.header.take pre ++ r.rest
-      if input = [] then (r, .eof)
-      else decodeInto c { r with rest := [], nbytes := r.nbytes + r.rest.length } input dstLen
+  match headerPhase r with
+  | none => (r, .eof)
+  | some (r, pre) =>
+    if r.header.take 8 = Spec.Xerial.magic then framedBody c r dstLen else unframedBody c r pre dstLen
 
 inductive ReadRes where
   | data (b : Bytes)
@@ -167,6 +178,16 @@ def readSizes (c : Codec) (r : Reader) : List Nat → List Nat
     | (r, .data b) => b.length :: readSizes c r ks
     | (_, .eof) => [0]
     | (_, .err) => [0, 0]
+
+/-- a consumer calling `Read` with buffer sizes `ks` until EOF: everything it received (`none`: an error, or
+the sizes ran out before EOF) -/
+def readAllWith (c : Codec) : Reader → List Nat → Option Bytes
+  | _, [] => none
+  | r, k :: ks =>
+    match read c (r.rest.length + 2) r k with
+    | (r', .data b) => (readAllWith c r' ks).map (b ++ ·)
+    | (_, .eof) => some []
+    | (_, .err) => none
 
 /-- `WriteTo`-style consumption: chunk after chunk until EOF -/
 def drain (c : Codec) : Nat → Reader → Option Bytes
